@@ -158,7 +158,11 @@ def build(reg, src):
         d = [e for e in ev if e.items[0] == 'dispatch'][0].items
         return And(same(d[1], lift('.ws.m')), VBool(d[2].t == z3.Function('assumed:json.loads', Obj, Obj)(raw.t)), same(d[3], s.self))
     reg.fn(WS + 'NetworkClient._listen', setup=ws_listen_setup, returns=None, ensures=[ws_listen_post],
-           ensures_exc=[lambda s, e: VBool([x.items[0] for x in s.st.ghost['events'].items].count('dispatch') <= 1)])
+           ensures_exc=[lambda s, e: VBool([x.items[0] for x in s.st.ghost['events'].items].count('dispatch') <= 1),
+                        # a failure of the .ws.m handler stays inside this message: what escapes _listen ends the whole connection loop
+                        # (_run), and every later message of the connection would be lost with it
+                        lambda s, e: VBool([x.items[0] for x in s.st.ghost['events'].items].count('dispatch') == 0
+                                           or e.cls == 'KlongWSConnectionFailureException')])
     reg.fn(WS + 'decode_message', inline=True)
     reg.fn(WS + 'encode_message', inline=True)
     reg.assumed_calls.update({'json.loads': 'opaque', 'json.dumps': 'nonnull'})
@@ -200,6 +204,16 @@ def build(reg, src):
     ws_kinds.__name__ = 'ws-message-kinds'
     reg.extra_checks.append(ws_kinds)
     reg.bounded.append(dict(check='ws-message-kinds', tool='native execution of klong[\'.ws.m\'](conn, msg)', bound='13 JSON kinds of message', result='see rows'))
+    def ws_send(ctx):
+        from pyvc.run import run_replay
+        r = run_replay(lambda inputs, name: dict(rows=rp.ws_send_kinds()), {}, 'ws-send-kinds', timeout_s=60)
+        rows = r.get('rows') if isinstance(r, dict) else None
+        if not rows:
+            return [dict(name='ws-send-kinds(bounded)::harness', ok=False, undecided=True, backend='native-execution (bounded)', detail=str(r)[:200])]
+        return [dict(name=f"ws-send-kinds(bounded)::{k}", ok=bool(ok), backend='native-execution (bounded)', detail=d, confirmed=not ok) for k, ok, d in rows]
+    ws_send.__name__ = 'ws-send-kinds'
+    reg.extra_checks.append(ws_send)
+    reg.bounded.append(dict(check='ws-send-kinds', tool='native execution of encode_message on values produced by the interpreter', bound='14 kinds of value (literal and computed)', result='see rows'))
     reg.replays.append((r'shutdown_web_server|WebServerHandle', rp.replay_webc))
     reg.replays.append((r'NetworkClient\._listen|decode_message', rp.replay_listen_kinds))
     reg.replays.append((r'.', rp.replay_web))
